@@ -917,8 +917,8 @@ class Runner(object):
                 if code != want_code:
                     return fail('code-changed', shape, 'raised %r, client sees %r' % (want_code, got[0]))
                 if got[1] != e.faultstring:
-                    if got[1] == (e.faultstring.strip() or type(e).__name__):
-                        # (Fault.__init__ replaces an empty message by the class name)
+                    if got[1] == (e.faultstring.strip() or 'Fault'):
+                        # (the client re-builds a plain Fault, whose constructor replaces an empty message by the class name)
                         return fail('message-stripped', 'surrounding-whitespace',
                                     'raised %r, client sees %r' % (e.faultstring, got[1]))
                     return fail('message-changed', shape, 'raised %r, client sees %r' % (e.faultstring, got[1]))
